@@ -15,13 +15,18 @@ Import ListNotations.
 
 (* ---- (c) table obligation on what anchor.rs says NOW ---- *)
 (* Pairs the tree still gets wrong (known findings; see known_findings.d/relational.json):
-   F19  Take may join a SELECT in front of Distinct / DistinctOn  (SELECT DISTINCT .. LIMIT n: DISTINCT is evaluated first)
+   F19  Take may join a SELECT in front of Distinct / DistinctOn  (SELECT DISTINCT .. LIMIT n: DISTINCT is evaluated first).
+        KTakeSorted = a take that carries a sort (it says WHICH rows survive: the wrong rows are observable);
+        KTake = a take without one (any n rows are a correct answer, and DISTINCT-then-LIMIT returns one of them: the pair
+        is against the clause order, but no result contradicts the documented meaning; pinned by the upstream snapshot
+        test_mssql_distinct_fetch).  The proposed repair fixes/F72c makes the sorted take split: the two KTakeSorted pairs
+        then leave this list.
    and three latent pairs of the same family (a set operation in front of DistinctOn; today the operand of a set
    operation always arrives wrapped, so no program reaches them).
-   Repaired since the last adaptation: Distinct and DistinctOn no longer share a SELECT (fix 3561315: the pairs
+   Repaired since the first adaptation: Distinct and DistinctOn no longer share a SELECT (fix 3561315: the pairs
    (KDistinct, NDistinctOn) and (KDistinctOn, NDistinct) left this list; `c01_split_distinct_pairs_closed` pins that). *)
 Definition known_bad : list (kind * nm) :=
-  [ (KTake, NDistinct); (KTake, NDistinctOn);
+  [ (KTake, NDistinct); (KTake, NDistinctOn); (KTakeSorted, NDistinct); (KTakeSorted, NDistinctOn);
     (KUnion, NDistinctOn); (KExcept, NDistinctOn); (KIntersect, NDistinctOn) ].
 
 (* full statement (FALSE on the unchanged tree):  bad_pairs split_required = []  *)
@@ -34,7 +39,7 @@ Print Assumptions c01_split_table_refines_clause_order_partial.
    them breaks this obligation and forces the list to shrink), with the F19 witness spelled out *)
 Theorem c01_split_table_refuted :
   pairs_subset known_bad (bad_pairs split_required) = true /\
-  split_required KTake [NDistinct] = false /\ may_precede KTake NDistinct = false.
+  split_required KTakeSorted [NDistinct] = false /\ may_precede KTakeSorted NDistinct = false.
 Proof. vm_compute. repeat split; reflexivity. Qed.
 Print Assumptions c01_split_table_refuted.
 
